@@ -9,6 +9,50 @@ ICLAUSES = {1: "a Ctrl+I / Tab insert did not reach the line channel as ONE inta
             11: "Judge/C02In.insert_lines differs from what Shell.insert sends"}
 
 
+def held_over_http(run):
+    """Lines entered while no shell is attached are held for the next shell - also across callbacks that attach one side and go away,
+    and across a shell that dies with lines queued behind it (real Server, real TLS)."""
+    ok, binp, log = vlib.build_overlay_test(run.rundir, "internal/hsrv", go="go")
+    if not ok:
+        run.oblige("hsrv harness builds against /repo", False, log)
+        return
+    H = lambda x: (x if isinstance(x, bytes) else x.encode()).hex()
+    IN = lambda i: H("GET /i/%s HTTP/1.1\r\nHost: h\r\n\r\n" % i)
+    OUT = lambda i: H("POST /o/%s HTTP/1.1\r\nHost: h\r\nTransfer-Encoding: chunked\r\n\r\n" % i)
+    cases, wants = [], []
+    for variant in ("half-out-goes-away", "half-out-twice", "nothing-in-between"):
+        acts = [{"a": "line", "l": H(l), "quiet_ms": 20} for l in ("cd /tmp", "id")]
+        if variant != "nothing-in-between":
+            for rep in range(2 if variant == "half-out-twice" else 1):
+                acts += [{"a": "open", "id": "h%d" % rep, "req": OUT("half%d" % rep), "quiet_ms": 120}, {"a": "close", "id": "h%d" % rep, "quiet_ms": 250}]
+        acts += [{"a": "line", "l": H("uname -a"), "quiet_ms": 20},
+                 {"a": "open", "id": "i", "req": IN("real"), "quiet_ms": 120}, {"a": "open", "id": "o", "req": OUT("real"), "quiet_ms": 200},
+                 {"a": "peek", "id": "i", "quiet_ms": 10}, {"a": "close", "id": "o", "quiet_ms": 100}, {"a": "close", "id": "i", "quiet_ms": 200}]
+        cases.append({"i": len(cases), "cfg": {}, "acts": acts, "_variant": variant})
+    import concurrent.futures as cf
+    with cf.ThreadPoolExecutor(max_workers=4) as ex:
+        outs = list(ex.map(lambda c: vlib.run_overlay_test(binp, "TestVerifHsrv", [{k: v for k, v in c.items() if not k.startswith("_")}], run.rundir,
+                                                            tag="c02held_%d" % c["i"], env=dict(os.environ, VERIF_TMP=run.rundir), timeout=300), cases))
+    bad = []
+    for c, (r, err) in zip(cases, outs):
+        if err or not r:
+            bad.append({"variant": c["_variant"], "error": str(err)}); continue
+        peek = [a for a in r[0].get("acts") or [] if "ended" in a]
+        got = bytes.fromhex((peek[0] if peek else {}).get("got", "") or "")
+        body = got.split(b"\r\n\r\n", 1)[1] if b"\r\n\r\n" in got else b""
+        import re
+        text = b"".join(re.findall(rb"[0-9a-f]+\r\n(.*?)\r\n", body, re.S))      # de-chunk
+        if text != b"cd /tmp\nid\nuname -a\n":
+            bad.append({"variant": c["_variant"], "shell_received": text.decode(errors="replace"), "expected": "cd /tmp\nid\nuname -a\n"})
+    for b in bad[:1]:
+        run.violation("held-lines-lost", "lines entered while no shell was attached did not all reach the next shell, in order (real Server)",
+                      {"stream": "held-http", "input": {"variant": b.get("variant")}, "detail": bad})
+    run.oblige("real Server: lines entered before / between callbacks that attach only one side and go away are held, in order, for the next shell (%d scenarios)" % len(cases),
+               not bad, json.dumps(bad)[:2000])
+    run.stream("held-http", len(cases), len(cases), "two lines entered with no shell, an output-only callback that comes and goes (once, twice, or not at all), a third "
+               "line, then a real shell over /i + /o: the input stream must carry the three lines in order", [{"variant": cases[0]["_variant"]}])
+
+
 def operator_side(run):
     """lib/opshell, upstream of the broker: the real Shell.insert and the real Shell.Do line reader (pty child)."""
     ok, binp, log = vlib.build_overlay_test(run.rundir, "lib/opshell")
@@ -109,6 +153,7 @@ def check(run):
     run.oblige("source obligation: the program's line channel has depth 1024 (the depth the operator-side harness and model cases use)",
                bool(m) and m.group(1) == "1024", "found %s" % (m.group(1) if m else None))
     operator_side(run)
+    held_over_http(run)
     run.assumptions += ["that http.ResponseWriter.FlushError pushes the bytes onto the network is net/http's business; the harness observes that the "
                         "flush is CALLED after every write and before the next line is taken",
                         "when a line and a cancellation are ready at the same time Go's select may take either; the harness never creates that race "
